@@ -45,8 +45,8 @@ type Seq struct {
 
 type knobs struct {
 	commitW, openW, signW, closeW, failW, deleteW, flapW, chanW, restartW int
-	maxSteps                                                             int
-	faultDen                                                             int
+	maxSteps                                                              int
+	faultDen                                                              int
 }
 
 func drawKnobs(t *simcore.Tape, faulty bool) knobs {
@@ -69,13 +69,16 @@ func drawKnobs(t *simcore.Tape, faulty bool) knobs {
 }
 
 // RunSeq is one simulated execution of a sequential arm.
-func RunSeq(r *simcore.Run, faulty bool) {
+func RunSeq(r *simcore.Run, faulty, thorough bool) {
 	t := r.Tape
 	nCh := 2 + t.CfgDraw(2)
 	nIn := 4 + t.CfgDraw(3)
 	s := &Seq{R: r, Faulty: faulty}
 	s.Strict = t.CfgDraw(3) == 0
 	s.K = drawKnobs(t, faulty)
+	if thorough {
+		s.K.maxSteps *= 2
+	}
 	s.wc = t.CfgChance(1, 8)
 	s.pg = t.CfgChance(1, 8)
 	s.Gaps = os.Getenv("VERIF_C07_GAPS") == "1"
@@ -365,6 +368,10 @@ func (s *Seq) step() {
 			r.Count("probe_trim_arbitrary_start")
 		}
 		if !s.trimDefined(c, start) {
+			if s.Gaps {
+				r.Kind("noop") // experiment knob: holes are allowed to exist
+				return
+			}
 			r.Harness("trim precondition broken by the generator: ch%d start=%d", c, start)
 		}
 		before := s.M.numOpen()
@@ -583,6 +590,18 @@ func (s *Seq) compareState(after string) {
 	if !sameView(s.R, got, want, "after "+after) {
 		s.R.Fail("state-mismatch", "after %s the lookup API shows\n got:  %s\n want: %s", after, got, want)
 	}
+	// The closing set is not visible through lookups, but FailCircuit on a
+	// circuit that already accepted a response is free of side effects.
+	for ik := range s.M.P {
+		if s.M.P[ik].Present && s.M.P[ik].Closed {
+			if out := s.W.Exec(Input{Kind: OpFail, Keys: []int{ik}}); out.Err != ECircuitClosing {
+				if out.Err == ENil {
+					s.R.Fail("double-response", "after %s: circuit %s already accepted a settle/fail in this process epoch and was not deleted, yet FailCircuit accepts another response for it", after, ikStr(ik))
+				}
+				s.R.Fail("state-mismatch", "after %s: FailCircuit(%s) on a circuit that already accepted a response returned %s, want ErrCircuitClosing", after, ikStr(ik), out)
+			}
+		}
+	}
 }
 
 // diskAudit: "after a failed write memory equals what a fresh NewCircuitMap
@@ -716,6 +735,13 @@ func (s *Seq) restart(fk, k int) {
 			env2 := w.Env
 			env2.TrimPendingClose, env2.ScanStopsAtGap = v.pc, v.gap
 			if _, m2, _ := Restart(s.D, env2); coreView(got) == coreView(m2.Snapshot()) {
+				if s.Gaps && v.gap {
+					// experiment knob VERIF_C07_GAPS: the hole may have
+					// been made by the caller (DeleteCircuits of an open,
+					// never committed circuit), which the doc comment of
+					// TrimOpenCircuits rules out
+					v.sig = "caller-gap(experiment)"
+				}
 				r.FailSig("restart-untrimmed", v.sig, "after the restart a circuit is still open towards an outgoing HTLC that never reached a commitment (%s)\n got:  %s\n want: %s\n env: status=%v next=%v\n disk before: %s", untrimmedWhy[v.sig], got, m.Snapshot(), w.Env.Status[:w.NCh+1], w.Env.Next[:w.NCh+1], func() string { p := Project(s.D); return p.Snapshot() }())
 			}
 		}
@@ -771,8 +797,10 @@ func (s *Seq) openCands(c int) []int {
 		if s.Strict && (s.routed[ik] != c || p.Closed) {
 			continue
 		}
-		if !s.pg && ikCh(ik) != 0 && s.W.Env.Status[ikCh(ik)] == ChClosed {
-			continue // would be purged at start-up from under the keystones above it
+		if ikCh(ik) != 0 && s.W.Env.Status[ikCh(ik)] == ChClosed {
+			// the incoming channel is gone for good: nothing forwards this
+			// HTLC any more (and its circuit will be purged at start-up)
+			continue
 		}
 		l = append(l, ik)
 	}
@@ -923,4 +951,5 @@ var untrimmedWhy = map[string]string{
 	"pending-close":           "its outgoing channel is in the pending-close state - closing transaction confirmed, contracts unresolved - which trimAllOpenCircuits never visits",
 	"purge-gap":               "a lower uncommitted keystone of the same channel belonged to a circuit of a fully closed channel and was purged first, so the forward scan of TrimOpenCircuits stopped at the hole",
 	"pending-close+purge-gap": "both: pending-close outgoing channel and a hole left by the purge of closed channels",
+	"caller-gap(experiment)":  "the keystones at/above NextLocalHtlcIndex were not contiguous, so the forward scan of TrimOpenCircuits stopped at the hole",
 }
